@@ -30,6 +30,10 @@ that fact on the parsed trees and are skipped when it does not hold.
 
   if not C: A else: B               ==>          if C: B else: A    (only when both arms are present)
 
+  with ExitStack() as s: A; s.callback(f, x); B  ==>     A; try: B finally: f(x)
+
+  append = self.stack.append; ...; append(x)     ==>     self.stack.append(x)        (also `f = partial(g, a); f(b)` ==> g(a, b))
+
   match S: case V: A; case _: B     ==>          if S == V: A else: B         (value/singleton/or/class()/capture/wildcard patterns)
 
   x[:3] == "abc"                    ==>          x.startswith("abc")          (likewise x[-3:] / endswith)
@@ -234,10 +238,41 @@ def nonnone_containers(trees: list[ast.Module]) -> set[str]:
     return {k for k, v in ok.items() if v}
 
 
+def tuple_containers(trees: list[ast.Module]) -> dict[str, int]:
+    """attribute names X such that every `<e>.X[k] = v` (also through a local `x = <e>.X`) stores a tuple display of one length"""
+    lens: dict[str, set] = {}
+    for t in trees:
+        for fn in ast.walk(t):
+            if not isinstance(fn, (ast.FunctionDef, ast.AsyncFunctionDef)):
+                continue
+            attr_locals = {s.targets[0].id: s.value.attr for s in ast.walk(fn) if isinstance(s, ast.Assign) and len(s.targets) == 1
+                           and isinstance(s.targets[0], ast.Name) and isinstance(s.value, ast.Attribute)}
+            for s in ast.walk(fn):
+                if isinstance(s, ast.Assign):
+                    for tg in s.targets:
+                        name = None
+                        if isinstance(tg, ast.Subscript) and isinstance(tg.value, ast.Attribute):
+                            name = tg.value.attr
+                        elif isinstance(tg, ast.Subscript) and isinstance(tg.value, ast.Name) and tg.value.id in attr_locals:
+                            name = attr_locals[tg.value.id]
+                        if name is not None:
+                            lens.setdefault(name, set()).add(len(s.value.elts) if isinstance(s.value, ast.Tuple) and not any(isinstance(x, ast.Starred) for x in s.value.elts) else -1)
+    return {k: next(iter(v)) for k, v in lens.items() if len(v) == 1 and -1 not in v}
+
+
 class Normaliser:
     def __init__(self, trees: list[ast.Module]) -> None:
         self.sigs = Signatures(trees)
         self.nonnone = nonnone_containers(trees)
+        self.tuple_containers = tuple_containers(trees)
+        # attribute names that some function other than an __init__ (or a class body) assigns: `x.attr` may change under a reader
+        self.mutable_attrs: set[str] = set()
+        for t in trees:
+            for fnode in ast.walk(t):
+                if isinstance(fnode, (ast.FunctionDef, ast.AsyncFunctionDef)) and fnode.name != "__init__":
+                    for x in ast.walk(fnode):
+                        if isinstance(x, ast.Attribute) and isinstance(x.ctx, (ast.Store, ast.Del)):
+                            self.mutable_attrs.add(x.attr)
         # module constants `NAME = range(a, b)` assigned exactly once in the package
         seen: dict[str, list[ast.AST]] = {}
         for t in trees:
@@ -305,11 +340,41 @@ class Normaliser:
             i += 1
         return stmts
 
+    def exitstack(self, st: ast.With) -> list[ast.stmt] | None:
+        """with ExitStack() as s: A; s.callback(f, x); B      ==>      A; try: B finally: f(x)
+        (callbacks registered by statements of the with-body itself; the stack object used for nothing else)"""
+        X = st.items[0].optional_vars.id
+
+        def is_cb(t: ast.stmt) -> bool:
+            return isinstance(t, ast.Expr) and isinstance(t.value, ast.Call) and isinstance(t.value.func, ast.Attribute) and t.value.func.attr == "callback" \
+                and isinstance(t.value.func.value, ast.Name) and t.value.func.value.id == X and t.value.args
+        uses = [x for b in st.body for x in ast.walk(b) if isinstance(x, ast.Name) and x.id == X]
+        ncb = sum(1 for b in st.body if is_cb(b))
+        if ncb == 0 or len(uses) != ncb:
+            return None
+
+        def conv(body: list[ast.stmt]) -> list[ast.stmt]:
+            for i, t in enumerate(body):
+                if is_cb(t):
+                    c = t.value
+                    call = ast.Expr(value=ast.Call(func=c.args[0], args=list(c.args[1:]), keywords=list(c.keywords)))
+                    rest = conv(body[i + 1:]) or [ast.Pass()]
+                    tr = ast.Try(body=rest, handlers=[], orelse=[], finalbody=[call])
+                    return body[:i] + [ast.fix_missing_locations(ast.copy_location(tr, t))]
+            return body
+        self.hit("ExitStack-callbacks->try/finally")
+        return self.block(conv(st.body))
+
     def unmatch(self, st: ast.Match) -> list[ast.stmt] | None:
         """match S: case V1: A; case V2 | V3: B; case _: C     ==>     if S == V1: A  elif S == V2 or S == V3: B  else: C
         (value, singleton, or-, class-without-arguments, capture and wildcard patterns, guards; fixed-length sequences of those)"""
         pre: list[ast.stmt] = []
         subj = st.subject
+        tuple_len = None
+        s0 = st.subject
+        if isinstance(s0, ast.Call) and isinstance(s0.func, ast.Attribute) and s0.func.attr in ("get", "pop") and isinstance(s0.func.value, ast.Attribute) \
+                and (len(s0.args) == 1 and s0.func.attr == "get" or (len(s0.args) == 2 and isinstance(s0.args[1], ast.Constant) and s0.args[1].value is None)):
+            tuple_len = self.tuple_containers.get(s0.func.value.attr)
         if not _movable(subj) or isinstance(subj, ast.Call):
             tmp = ast.Name(id="match_h", ctx=ast.Store())
             pre.append(ast.fix_missing_locations(ast.copy_location(ast.Assign(targets=[tmp], value=subj), st)))
@@ -342,6 +407,18 @@ class Normaliser:
             if isinstance(p_, ast.MatchClass) and not p_.patterns and not p_.kwd_patterns:
                 return ast.Call(func=ast.Name(id="isinstance", ctx=ast.Load()), args=[copy.deepcopy(s_), p_.cls], keywords=[]), []
             if isinstance(p_, ast.MatchSequence) and not any(isinstance(x, ast.MatchStar) for x in p_.patterns):
+                if s_ is subj and tuple_len is not None and tuple_len == len(p_.patterns):
+                    # the subject is an entry of a table that only ever holds tuples of this length (or the None default of
+                    # .get/.pop): "is a sequence of length n" is "is not None"
+                    tests = [ast.Compare(left=copy.deepcopy(s_), ops=[ast.IsNot()], comparators=[ast.Constant(value=None)])]
+                    binds = []
+                    for i, x in enumerate(p_.patterns):
+                        r_ = pat(x, ast.Subscript(value=copy.deepcopy(s_), slice=ast.Constant(value=i), ctx=ast.Load()))
+                        if r_ is None:
+                            return None
+                        tests.append(r_[0])
+                        binds += r_[1]
+                    return conj(tests), binds
                 tests: list[ast.expr] = [ast.Call(func=ast.Name(id="isinstance", ctx=ast.Load()),
                                                   args=[copy.deepcopy(s_), ast.Tuple(elts=[ast.Name(id="tuple", ctx=ast.Load()), ast.Name(id="list", ctx=ast.Load())], ctx=ast.Load())], keywords=[]),
                                          ast.Compare(left=ast.Call(func=ast.Name(id="len", ctx=ast.Load()), args=[copy.deepcopy(s_)], keywords=[]), ops=[ast.Eq()],
@@ -355,26 +432,39 @@ class Normaliser:
                     binds += r_[1]
                 return conj(tests), binds
             return None
-        chain: list[tuple[ast.expr, list[ast.stmt]]] = []
+        parsed = []
         for c in st.cases:
             r = pat(c.pattern, subj)
             if r is None:
                 return None
             test, binds = r
-            bind_stmts = [ast.Assign(targets=[ast.Name(id=n, ctx=ast.Store())], value=v) for (n, v) in binds]
-            if c.guard is not None:
-                if binds:
-                    return None   # a guard that may use the captures: not expressible as one test
-                test = conj([test, c.guard])
-            chain.append((test, bind_stmts + c.body))
-        # build nested if/elif from the end
-        orelse: list[ast.stmt] = []
-        for test, body in reversed(chain):
+            parsed.append((test, [ast.Assign(targets=[ast.Name(id=n, ctx=ast.Store())], value=v) for (n, v) in binds], c.guard, c.body))
+        nflag = [0]
+
+        def build(cases) -> list[ast.stmt]:
+            if not cases:
+                return []
+            test, bind_stmts, guard, body = cases[0]
+            rest = cases[1:]
+            if guard is None or not bind_stmts:
+                cond = conj([test] + ([guard] if guard is not None else []))
+                if isinstance(cond, ast.Constant) and cond.value is True:
+                    return bind_stmts + body
+                return [ast.If(test=cond, body=bind_stmts + body, orelse=build(rest))]
+            # a guard that may use the captures: bind first, then test; later cases run only if this one did not match
+            nflag[0] += 1
+            flag = f"matched_h{nflag[0]}"
+            out_: list[ast.stmt] = [ast.Assign(targets=[ast.Name(id=flag, ctx=ast.Store())], value=ast.Constant(value=False))]
+            inner = ast.If(test=guard, body=[ast.Assign(targets=[ast.Name(id=flag, ctx=ast.Store())], value=ast.Constant(value=True))] + body, orelse=[])
             if isinstance(test, ast.Constant) and test.value is True:
-                orelse = body
+                out_ += bind_stmts + [inner]
             else:
-                orelse = [ast.If(test=test, body=body, orelse=orelse)]
-        out = pre + orelse
+                out_.append(ast.If(test=test, body=bind_stmts + [inner], orelse=[]))
+            tail = build(rest)
+            if tail:
+                out_.append(ast.If(test=ast.UnaryOp(op=ast.Not(), operand=ast.Name(id=flag, ctx=ast.Load())), body=tail, orelse=[]))
+            return out_
+        out = pre + build(parsed)
         for x in out:
             ast.fix_missing_locations(ast.copy_location(x, st))
         self.hit("match->if-chain")
@@ -588,6 +678,105 @@ class Normaliser:
                 return visit(block)
         visit(fn.body)
 
+    def callee_aliases(self, fn: ast.AST) -> None:
+        """append = self.stack.append ... append(x)          ==>   self.stack.append(x)
+           get = partial(items.get, block=False) ... get()   ==>   items.get(block=False)
+        for a local bound once to a bound method / function (or a partial of one) and used only as a callee, where the
+        object the method is taken from cannot change in between: a name assigned at most once in the function, or an
+        attribute chain of `self`/such a name through attributes that the package assigns only in __init__ / class bodies."""
+        stores: dict[str, int] = {}
+        for x in ast.walk(fn):
+            if isinstance(x, ast.Name) and isinstance(x.ctx, (ast.Store, ast.Del)):
+                stores[x.id] = stores.get(x.id, 0) + 1
+            elif isinstance(x, (ast.FunctionDef, ast.AsyncFunctionDef, ast.ClassDef)) and x is not fn:
+                stores[x.name] = stores.get(x.name, 0) + 1
+            elif isinstance(x, ast.ExceptHandler) and x.name:
+                stores[x.name] = stores.get(x.name, 0) + 2
+            elif isinstance(x, (ast.Global, ast.Nonlocal)):
+                for n_ in x.names:
+                    stores[n_] = stores.get(n_, 0) + 2
+            elif isinstance(x, ast.arg):
+                stores[x.arg] = stores.get(x.arg, 0)
+        loop_targets = {y.id for x in ast.walk(fn) if isinstance(x, (ast.For, ast.comprehension)) for y in ast.walk(x.target) if isinstance(y, ast.Name)}
+
+        def stable_obj(e: ast.AST) -> bool:
+            if isinstance(e, ast.Name):
+                return stores.get(e.id, 0) <= 1 and e.id not in loop_targets
+            if isinstance(e, ast.Attribute):
+                return e.attr not in self.mutable_attrs and stable_obj(e.value)
+            return False
+
+        def callee_of(v: ast.AST):
+            """(function expression, leading args, keywords) if v is a bound method / function reference or a partial of one"""
+            if isinstance(v, ast.Attribute) and stable_obj(v.value):
+                return v, [], []
+            if isinstance(v, ast.Call) and isinstance(v.func, ast.Name) and v.func.id == "partial" and v.args \
+                    and not any(isinstance(a, ast.Starred) for a in v.args) and all(k.arg is not None for k in v.keywords) \
+                    and all(_movable(a) for a in v.args[1:]) and all(_movable(k.value) for k in v.keywords):
+                f0 = v.args[0]
+                if (isinstance(f0, ast.Attribute) and stable_obj(f0.value)) or (isinstance(f0, ast.Name) and stores.get(f0.id, 0) <= 1 and f0.id not in loop_targets):
+                    # arguments frozen at partial() time must be stable too
+                    if all(not isinstance(x, ast.Name) or (stores.get(x.id, 0) <= 1 and x.id not in loop_targets) for a in list(v.args[1:]) + [k.value for k in v.keywords] for x in ast.walk(a)):
+                        return f0, list(v.args[1:]), list(v.keywords)
+            return None
+        cands: dict[str, tuple] = {}
+        assigns: dict[str, ast.Assign] = {}
+        for x in ast.walk(fn):
+            if isinstance(x, ast.Assign) and len(x.targets) == 1 and isinstance(x.targets[0], ast.Name) and stores.get(x.targets[0].id) == 1:
+                c = callee_of(x.value)
+                if c is not None:
+                    cands[x.targets[0].id] = c
+                    assigns[x.targets[0].id] = x
+        if not cands:
+            return
+        # every load of the alias must be the function of a call, later in the text than the binding
+        parents: dict[int, ast.AST] = {}
+        for p_ in ast.walk(fn):
+            for ch in ast.iter_child_nodes(p_):
+                parents[id(ch)] = p_
+        for x in ast.walk(fn):
+            if isinstance(x, ast.Name) and isinstance(x.ctx, ast.Load) and x.id in cands:
+                par = parents.get(id(x))
+                a = assigns[x.id]
+                if not (isinstance(par, ast.Call) and par.func is x) or (x.lineno, x.col_offset) <= (a.lineno, a.col_offset):
+                    cands.pop(x.id, None)
+        # an alias defined in terms of another alias: resolve in order of appearance
+        if not cands:
+            return
+
+        class _R(ast.NodeTransformer):
+            def visit_Call(self_, node: ast.Call):  # noqa: N805
+                self_.generic_visit(node)
+                if isinstance(node.func, ast.Name) and node.func.id in cands:
+                    f0, a0, k0 = cands[node.func.id]
+                    node.func = copy.deepcopy(f0)
+                    node.args = [copy.deepcopy(a) for a in a0] + list(node.args)
+                    node.keywords = [copy.deepcopy(k) for k in k0 if k.arg not in {kk.arg for kk in node.keywords}] + list(node.keywords)
+                    ast.fix_missing_locations(node)
+                return node
+        doomed = {id(assigns[n]) for n in cands}
+
+        def strip(block: list[ast.stmt]) -> list[ast.stmt]:
+            out = []
+            for st in block:
+                if id(st) in doomed:
+                    continue
+                for fld in ("body", "orelse", "finalbody"):
+                    v = getattr(st, fld, None)
+                    if isinstance(v, list) and v and isinstance(v[0], ast.stmt):
+                        nv = strip(v)
+                        setattr(st, fld, nv if nv or fld != "body" else [ast.copy_location(ast.Pass(), st)])
+                for h in getattr(st, "handlers", []) or []:
+                    h.body = strip(h.body) or [ast.copy_location(ast.Pass(), h)]
+                out.append(st)
+            return out
+        _R().visit(fn)
+        fn.body = strip(fn.body) or [ast.copy_location(ast.Pass(), fn)]
+        for _ in cands:
+            self.hit("callee-alias-inlined")
+        # the rewritten calls may now be in a form another idiom normalises (keywords, defaults)
+        fn.body = [y for st in fn.body for y in [st]]
+
     def lookup_or_return(self, body: list[ast.stmt]) -> list[ast.stmt]:
         """function body:   try: T = D.pop(K) | D[K]            T = D.pop(K, None) | D.get(K)
                             except KeyError: return      ==>    if T is not None: REST
@@ -672,6 +861,7 @@ class Normaliser:
             st.body = self.lookup_or_return(st.body)
             self.unroll_literal_loops(st)
             self.list_builders(st)
+            self.callee_aliases(st)
         if isinstance(st, ast.Assign) and len(st.targets) == 1 and isinstance(st.targets[0], ast.Subscript) and isinstance(st.targets[0].slice, ast.Slice) \
                 and st.targets[0].slice.upper is None and st.targets[0].slice.step is None and st.targets[0].slice.lower is not None \
                 and isinstance(st.value, ast.List) and len(st.value.elts) == 1 and not isinstance(st.value.elts[0], ast.Starred) and _movable(st.targets[0].value):
@@ -684,6 +874,19 @@ class Normaliser:
         if isinstance(st, ast.AnnAssign) and st.value is None and isinstance(st.target, ast.Name) and self.in_function:
             self.hit("bare-local-annotation-dropped")   # `x: T` inside a function neither binds nor evaluates anything
             return []
+        if isinstance(st, ast.Expr) and isinstance(st.value, ast.Call) and isinstance(st.value.func, ast.Name) and st.value.func.id == "setattr" \
+                and len(st.value.args) == 3 and not st.value.keywords and isinstance(st.value.args[1], ast.Constant) and isinstance(st.value.args[1].value, str) \
+                and st.value.args[1].value.isidentifier() and _movable(st.value.args[0]):
+            # setattr(x, "name", v)  ==>  x.name = v
+            new = ast.Assign(targets=[ast.Attribute(value=st.value.args[0], attr=st.value.args[1].value, ctx=ast.Store())], value=st.value.args[2])
+            self.hit("setattr-literal->assignment")
+            return [ast.fix_missing_locations(ast.copy_location(new, st))]
+        if isinstance(st, ast.With) and len(st.items) == 1 and isinstance(st.items[0].optional_vars, ast.Name) \
+                and isinstance(st.items[0].context_expr, ast.Call) and not st.items[0].context_expr.args and not st.items[0].context_expr.keywords \
+                and ast.unparse(st.items[0].context_expr.func).split(".")[-1] == "ExitStack":
+            r = self.exitstack(st)
+            if r is not None:
+                return r
         if isinstance(st, ast.Match):
             r = self.unmatch(st)
             if r is not None:
